@@ -75,3 +75,30 @@ def _(self, data: Tup(Str, Val), encoded: ByteArray, values: Opt(Val)):
 def _(self, data: Val) -> ByteArray:
     # a fresh buffer per call; the error path starts with the top-level type
     raises(EncodeError, ensures=[located_at(exc, self._type)])
+
+
+fields("MembersType", root_members=ObjSeq("Type"), additions=Opt(AbsList))
+
+
+@contract("asn1tools/codecs/__init__.py", "BaseType.is_default", abstract=True)
+def _(self, value: Val) -> Bool:
+    ensures(result == is_dflt(ident(self), value))
+
+
+@contract("asn1tools/codecs/__init__.py", "BaseType.has_default", abstract=True)
+def _(self) -> Bool:
+    ensures(result == (self.default is not None))
+
+
+@contract("MembersType.encode_member", props=["C03", "C01", "C12"], for_class="any")
+def _(self, member: Obj("Type"), data: Map('str', Val), encoded_members: ByteArray):
+    # X.690 11.5 (DER) / 8.12: a component equal to its DEFAULT is not encoded; absent OPTIONAL/DEFAULT components add
+    # nothing; a missing mandatory component is an encode error; an error inside the component is located at it (C12)
+    raises(EncodeError, ensures=[implies(member.name in data, located_at(exc, member))])
+    assigns(encoded_members)
+    ensures(member.name in data or member.optional or member.default is not None)
+    ensures(len(encoded_members) >= len(old(encoded_members))
+            and encoded_members[:len(old(encoded_members))] == old(encoded_members))
+    ensures(implies(member.name not in data, encoded_members == old(encoded_members)))
+    ensures(implies(member.name in data and is_dflt(ident(member), data[member.name])
+                    and not isinstance(member, AnyDefinedBy), encoded_members == old(encoded_members)))
